@@ -279,7 +279,7 @@ const char *PROP = "C02";
 struct case_budget chk_budget(const char *tier)
 {
         struct case_budget b = { N_LANES + 360 + N_ALPHA + N_DUPS + N_CAND, 0 };
-        b.random = strcmp(tier, "thorough") == 0 ? 1500000 : 40000;
+        b.random = strcmp(tier, "thorough") == 0 ? 8000000 : 150000;
         return b;
 }
 void chk_run_case(uint64_t seed, long c, bool is_sweep)
